@@ -3,6 +3,7 @@ package ast
 import (
 	"errors"
 	"fmt"
+	"sort"
 
 	"github.com/grafana/cog/internal/orderedmap"
 )
@@ -66,13 +67,23 @@ func (schemas Schemas) LocateObjectByRef(ref RefType) (Object, bool) {
 
 func (schemas Schemas) Consolidate() (Schemas, error) {
 	byPackage := make(map[string]Schemas, len(schemas))
+	packages := make([]string, 0, len(schemas))
 
 	for _, schema := range schemas {
+		if _, seen := byPackage[schema.Package]; !seen {
+			packages = append(packages, schema.Package)
+		}
+
 		byPackage[schema.Package] = append(byPackage[schema.Package], schema)
 	}
 
+	// Ranging over byPackage would make the order of the consolidated schemas
+	// random; sorting makes it independent of the order of the inputs too.
+	sort.Strings(packages)
+
 	newSchemas := make([]*Schema, 0, len(schemas))
-	for pkg, groupedSchemas := range byPackage {
+	for _, pkg := range packages {
+		groupedSchemas := byPackage[pkg]
 		newSchema := NewSchema(pkg, groupedSchemas[0].Metadata)
 		for _, schema := range groupedSchemas {
 			if err := newSchema.Merge(schema); err != nil {
